@@ -214,7 +214,7 @@ func checkC16(c *Ctx) {
 	c.checkSortSearchSites("C16-R3", nil, 3)
 
 	// R4: constant index under switch len(x) case N
-	r4 := c.R.Rule("C16-R4", "a constant index into x inside `switch len(x) { case N: ... }` is smaller than N", "E11 shape rule + dominance", 4)
+	r4 := c.R.Rule("C16-R4", "a constant index into x inside `switch len(x) { case N: ... }` is smaller than N", "E11 shape rule + dominance", 1)
 	for _, f := range c.P.ModFuncs() {
 		c.checkLenSwitchIndex(f, r4)
 	}
@@ -347,6 +347,7 @@ func checkC16(c *Ctx) {
 	}
 
 	c.ruleNoSharedStateInAuth("C16-R7")
+	c.ruleRecordFromOwnLine("C16-R8", authPkg)
 
 	// R1: setup gating
 	c.checkSetupGating()
@@ -833,4 +834,61 @@ func (c *Ctx) credentialHandlers(authPkg string) map[string]*ssa.Function {
 		"StaticHandler": c.authHandlerOf(authPkg, "StaticHandler"),
 		"FileHandler":   c.authHandlerOf(authPkg, "FileHandler"),
 	}
+}
+
+// ruleRecordFromOwnLine implements C16-R8: each credential record is built from its own line only.
+func (c *Ctx) ruleRecordFromOwnLine(id string, authPkg string) {
+	ru := c.R.Rule(id, "each record of the credential table is built from its own line: no field of a record appended in the loader's loop depends on a value carried over from an earlier iteration (a variable set by one line and not reset for the next lets a user inherit another entry's mount point)", "E3 provenance of the appended record's fields up to the loop header's φs", 1)
+	fh := c.P.Func(authPkg, "FileHandler")
+	if !ru.Anchor(fh != nil, "auth.FileHandler") {
+		return
+	}
+	n := 0
+	for _, f := range c.funcsDeep(fh, 3) {
+		loops := core.Loops(f)
+		for _, b := range f.Blocks {
+			for _, in := range b.Instrs {
+				cv, ok := in.(*ssa.Call)
+				if !ok || core.CallOf(cv).Builtin() != "append" || len(cv.Call.Args) != 2 {
+					continue
+				}
+				l := core.InnermostLoop(loops, b)
+				if l == nil {
+					continue
+				}
+				sl, ok := cv.Type().Underlying().(*types.Slice)
+				if !ok {
+					continue
+				}
+				if _, isStruct := derefT(sl.Elem()).Underlying().(*types.Struct); !isStruct {
+					continue
+				}
+				n++
+				c.R.Fn(c.fname(f))
+				key := fmt.Sprintf("record appended at %s", c.whereI(cv))
+				bad := ""
+				// the appended elements: the varargs slice's backing array elements
+				depReaches(cv.Call.Args[1], func(v ssa.Value) bool {
+					phi, ok := v.(*ssa.Phi)
+					if !ok || phi.Block() != l.Header {
+						return false
+					}
+					// the loop's own counter (φ(init, φ+1)) selects the current line: allowed
+					for _, e := range phi.Edges {
+						if bo, ok := e.(*ssa.BinOp); ok && bo.Op == token.ADD && (bo.X == ssa.Value(phi) || bo.Y == ssa.Value(phi)) {
+							return false
+						}
+					}
+					// the table being built is carried, but it is the destination, not part of the element
+					if types.Identical(phi.Type(), cv.Type()) {
+						return false
+					}
+					bad = "a field of the record depends on " + short(core.Term(phi), 60) + " (" + phi.Comment + "), which is carried over from the previous iteration"
+					return false
+				})
+				ru.Check(bad == "", key, c.whereI(cv), "fields depend on the current line only", bad)
+			}
+		}
+	}
+	ru.Anchor(n > 0, "an append of a record inside the loader's loop")
 }
